@@ -266,6 +266,17 @@ def _check(t, case, depth, nt_prog):
                 return cache[i]
 
             vs, resolved = _judge(case, s, oimp, oref_fn, plog)
+            if vs:
+                # every violation is re-executed (after a full collection) before it is reported
+                import gc
+
+                gc.collect()
+                oimp2 = G.run_script(impl, s)
+                vs2, resolved = _judge(case, s, oimp2, lambda i: G.run_script(refs[i], s), plog)
+                if {v[1] for v in vs} != {v[1] for v in vs2}:
+                    t.extra["unconfirmed_mismatches"] = t.extra.get("unconfirmed_mismatches", 0) + 1
+                    vs = [v for v in vs2 if v[1] in {x[1] for x in vs}]
+                    oimp = oimp2
             t.case((case, s), oimp.key(), nt_prog or G.script_nontrivial(s), f"{case[0].split('/')[0]}:{oimp.kind()}" + (":dontcare" if resolved else ""), steps=len(s) * (1 + len(cache)), evaluations=1 + len(cache))
             for rule, sig, detail in vs:
                 t.violation(rule, f"{case[0]} main={case[1]!r} cfg={case[2]!r} script=[{G.script_str(s)}] {detail}", sig, case=G.to_jsonable(case), script=G.to_jsonable(s))
